@@ -14,7 +14,7 @@ import os, sys, json, time, subprocess, shutil, hashlib, random, re, fcntl, temp
 VERIF = os.path.dirname(os.path.dirname(os.path.abspath(__file__)))
 REPO = os.environ.get("VERIF_REPO", "/repo")
 LEAN = os.path.join(VERIF, "lean")
-EVID = os.path.join(VERIF, "evidence")
+EVID = os.environ.get("VERIF_EVIDENCE_DIR", os.path.join(VERIF, "evidence"))   # seeded-mutation runs write elsewhere
 SCRATCH_ROOT = os.environ.get("VERIF_SCRATCH", os.environ.get("TMPDIR_VERIF", "/var/tmp"))
 CACHE = os.path.join(SCRATCH_ROOT, "easel-verif-cache")
 NPROC = os.cpu_count() or 4
